@@ -33,3 +33,11 @@ Proof. exact er_range. Qed.
 Theorem C07_mfi_range : forall p b0 bs, let w := lastn p (flows (tpr b0) bs) in
   possum w + negsum w <> 0 -> exists r, mfi_spec p b0 bs = Fin r /\ 0 <= r <= 100.
 Proof. exact mfi_range. Qed.
+
+(* ---- binary64, NO slack: FastStochastic (scalar path) stays in [0,100] exactly — rounding to nearest is monotone and 0, 1, 100
+        are floats — for every period and every stream of finite inputs free of -0.0 with magnitudes below 2^998 ---- *)
+From Coq Require Import Reals List.
+From TA Require Import FloatInst Proofs.Wiring Proofs.FloatErr Proofs.FloatFast.
+Theorem C07_fast_binary64_range : forall p s xs, fast_new FOps p = Ok s -> Forall inb xs ->
+  Forall (fun o => finF o /\ (0 <= FR o <= 100)%R) (fast_outs FOps s xs).
+Proof. exact fast_float_range. Qed.
